@@ -1,9 +1,22 @@
 package props
 
 import (
+	"fmt"
+
 	"verif/internal/corpus"
 	"verif/internal/fw"
+	"verif/internal/mgen"
 )
 
-// mgenSources returns n generated modules (filled in by internal/mgen).
-func mgenSources(ctx *fw.Ctx, n int) []corpus.Source { return nil }
+// mgenSources returns n generated modules (workload W2).
+func mgenSources(ctx *fw.Ctx, n int) []corpus.Source {
+	rng := ctx.Rand("mgen")
+	var out []corpus.Source
+	for i := 0; i < n; i++ {
+		seed := rng.Int63()
+		out = append(out, corpus.Source{ID: fmt.Sprintf("mgen/%d", seed), Text: func() (string, error) {
+			return mgen.Generate(seed, mgen.DefaultFeatures()).Text, nil
+		}})
+	}
+	return out
+}
